@@ -519,10 +519,7 @@ def run(tier="quick", root="/repo", evidence_dir=None, quiet=False):
         "flow-insensitive local def-use inside each constructor (all three are straight-line loops)",
     ])
     repo = get_repo(root)
-    rule_r1(rep, repo)
-    rule_r2(rep, repo)
-    rule_r3(rep, repo)
-    rule_r4(rep, repo)
-    rule_r5(rep, repo)
+    for rule in (rule_r1, rule_r2, rule_r3, rule_r4, rule_r5):
+        rep.attempt(rule, rep, repo)
     rep.extra["source_digest"] = repo.digest(["molgrid", "atomgrid"])
     return rep.finish(evidence_dir=evidence_dir, quiet=quiet)
